@@ -325,7 +325,7 @@ class _H:
             connected = set(v for e in edges for v in e)
             for c in comps:
                 if c in imported_c:
-                    for v in cvars[c]:
+                    for v in list(cvars[c]):
                         if v not in connected:
                             others = [w for w in allv if owner[w] != c and w not in [x for e in edges if v in e for x in e]]
                             others = [w for w in others if not any(tuple(sorted((owner[a], owner[b_]))) == tuple(sorted((c, owner[w]))) and sorted((vname[a], vname[b_])) == sorted((vname[v], vname[w])) for a, b_ in edges)]
@@ -338,7 +338,9 @@ class _H:
                                 edges.append((v, w))
                                 connected.add(v)
                             else:
-                                b.cmd("removevariable_p", c, v)
+                                # (by index: removeVariable(pointer) picks a look-alike sibling first, finding F7 of C09)
+                                b.cmd("removevariable_i", c, cvars[c].index(v))
+                                cvars[c] = [w for w in cvars[c] if w != v]
 
         # ---- math and resets on the local components
         order = 0
